@@ -124,3 +124,78 @@ def compositions(n, maxparts=None):
 
 def exc_name(o):
     return o.kind()
+
+
+# ------------------------------------------------------------------------------------------------
+#  standard reactive device configuration
+# ------------------------------------------------------------------------------------------------
+def mk_bytearray(b):
+    if isinstance(b, SymBytes):
+        return core.SymByteArray(b.base, b.ov)
+    return bytearray(b)
+
+
+class Std:
+    """A reactive device with symbolic content: shell outputs, a sync file system, symbolic remote ids."""
+
+    def __init__(self, ctx, maxdata=4096, sym_rid=True, packetize=None, fail=None, bad_id=None, auth=None, pick=None, gate=None, monitor=None,
+                 shell_outs=None, rid_base=None):
+        self.ctx = ctx
+        self.fs = sim.SyncFS()
+        self.shell_outs = shell_outs or {}
+        self.default_out = [b'ok']
+        self.packetize = packetize
+        self.fail = fail
+        self.bad_id = bad_id
+        self.sync_services = []
+        self.rids = []
+
+        def rid_alloc(lid, n):
+            if sym_rid:
+                r = ctx.int('rid', 1, 2 ** 32 - 1)
+            else:
+                r = (rid_base or 1000) + n
+            self.rids.append(r)
+            return r
+
+        def services(dest, stream):
+            d = norm(dest)
+            if isinstance(d, SymBytes):
+                d = core.concrete_bytes(d)
+            if not d.endswith(b'\0'):
+                ctx.fail('OPEN destination is NUL-terminated', detail=repr(d))
+            d = d.rstrip(b'\0')
+            stream.dest_name = d
+            if d == b'sync:':
+                svc = sim.SyncService(self.fs, packetize=self.packetize, fail=self.fail, bad_id=self.bad_id)
+                self.sync_services.append(svc)
+                return svc
+            for pre in (b'shell:', b'exec:', b'root:', b'reboot:'):
+                if d.startswith(pre):
+                    outs = self.shell_outs.get(d)
+                    if outs is None:
+                        outs = self.shell_outs.get(pre, self.default_out if pre in (b'shell:', b'exec:') else [])
+                    return sim.OutputService(outs)
+            return None
+
+        self.dev = sim.SimDevice(ctx, services, maxdata=maxdata, auth=auth, rid_alloc=rid_alloc, pick=pick, gate=gate, monitor=monitor)
+
+
+def sym_content(ctx, name, size, sym_positions):
+    """A byte string of `size` bytes: a deterministic concrete pattern with symbolic bytes at the given positions."""
+    base = bytes((i * 7 + 13) % 251 for i in range(size))
+    pos = sorted({p for p in sym_positions if 0 <= p < size})
+    if not pos:
+        return base if not ctx.symbolic else SymBytes(base)
+    vals = ctx.bytes(name, len(pos))
+    if isinstance(vals, bytes):
+        b = bytearray(base)
+        for p, v in zip(pos, vals):
+            b[p] = v
+        return bytes(b)
+    ba = bytearray(base)
+    ov = {}
+    for i, p in enumerate(pos):
+        ov[p] = vals.ov[i]
+        ba[p] = 0
+    return SymBytes(bytes(ba), ov)
